@@ -293,3 +293,112 @@ def run(ctx, rep):
         else:
             r.finding(inst, where, "no `_` between %s and %s: white space or a comment between these two tokens is a syntax error" % (da, db))
     r.note("%d rules reachable from library, %d adjacent pairs: %d separated, %d inside lexical-token rules" % (len(reach), len(pairs), n_ok, n_ex))
+
+
+# ---------------------------------------------------------------------------------------------------------------------
+def run_glue(ctx, rep, rid="R-C08-glue"):
+    """The lexical-token exemption of R-C08-trivia ("`-5` is one literal, no white space inside") is only harmless where the spaced
+    spelling `- 5` has no *other* parse.  In an ordered choice, if an earlier alternative can begin with token T glued to what follows
+    (T is the first element of an exempt lexical rule) and a later alternative can begin with the same T followed by optional trivia,
+    then `T x` and `T <blank> x` are both accepted but take different alternatives: the parsed library depends on a blank."""
+    g = ctx.peg
+    t = Trivia(g)
+    r = rep.rule(rid, "no ordered choice has an earlier alternative that begins with a token glued to its successor (inside a lexical-token rule) and a "
+                      "later alternative that begins with the same token followed by optional trivia: the spaced and the unspaced spelling must take the same alternative",
+                 floor=60, floor_what="ordered choices examined")
+    first_glued, first_loose = {}, {}
+    for n in g.rules:
+        first_glued[n] = set()
+        first_loose[n] = set()
+
+    def term(e):
+        d = t.describe(e)
+        return d if e.prim.kind in ("call", "pattern") and (e.prim.kind == "pattern" or g.terminal(e.prim)) else None
+
+    def seq_sets(rule_name, s, env):
+        """(glued, loose) terminals the sequence can start with"""
+        gl, lo = set(), set()
+        els = [e for e in s.elems]
+        i = 0
+        while i < len(els):
+            e = els[i]
+            if t.zero_width(e) or t.is_trivia(e):
+                i += 1
+                continue
+            # next consuming element and whether trivia can come between
+            j = i + 1
+            trivia_between = False
+            nxt = None
+            while j < len(els):
+                if t.is_trivia(els[j]):
+                    trivia_between = True
+                elif not t.zero_width(els[j]):
+                    nxt = els[j]
+                    break
+                j += 1
+            tm = term(e)
+            if tm is not None:
+                if nxt is not None and not trivia_between and not t.elem_leads(nxt, env) and rule_name in LEXICAL_RULES:
+                    gl.add(tm)
+                else:
+                    lo.add(tm)
+            elif e.prim.kind == "call" and e.prim.name in g.rules:
+                gl |= first_glued[e.prim.name]
+                lo |= first_loose[e.prim.name]
+            elif e.prim.kind == "group":
+                for sq in e.prim.expr.alts:
+                    a, b2 = seq_sets(rule_name, sq, env)
+                    gl |= a
+                    lo |= b2
+            elif e.prim.kind == "prec":
+                for lvl in e.prim.levels:
+                    for sq in lvl:
+                        a, b2 = seq_sets(rule_name, sq, env)
+                        gl |= a
+                        lo |= b2
+            if t.elem_nullable(e, env):
+                i += 1
+                continue
+            break
+        return gl, lo
+    changed = True
+    while changed:
+        changed = False
+        for n, rl in g.rules.items():
+            env = t.env_of(rl)
+            gl, lo = set(), set()
+            for s in rl.expr.alts:
+                a, b2 = seq_sets(n, s, env)
+                gl |= a
+                lo |= b2
+            if gl - first_glued[n] or lo - first_loose[n]:
+                first_glued[n] |= gl
+                first_loose[n] |= lo
+                changed = True
+    reach = t.reachable("library")
+    n_choices = 0
+
+    def examine(rule_name, expr, env, where_line):
+        nonlocal n_choices
+        if len(expr.alts) > 1:
+            n_choices += 1
+            sets = [seq_sets(rule_name, s, env) for s in expr.alts]
+            for i in range(len(sets)):
+                for j in range(i + 1, len(sets)):
+                    both = sets[i][0] & sets[j][1]
+                    for tm in sorted(both):
+                        r.finding("rule %s|alt %d glues %s, alt %d accepts it spaced" % (rule_name, i + 1, tm, j + 1), "%s:%d" % (PARSER_FILE, where_line),
+                                  "`%s x` is taken by alternative %d (no white space allowed after %s there), `%s <blank> x` falls through to alternative %d: "
+                                  "the same program parses to different trees depending on a blank" % (tm, i + 1, tm, tm, j + 1))
+        for s in expr.alts:
+            for e in s.elems:
+                for pr in (e.prim, e.sep):
+                    if pr is not None and pr.kind == "group":
+                        examine(rule_name, pr.expr, env, e.line)
+    for n in sorted(reach):
+        rl = g.rules[n]
+        examine(n, rl.expr, t.env_of(rl), rl.line)
+    r.count_override = n_choices
+    if not any(i["verdict"] == "finding" for i in r.instances):
+        r.ok("grammar|no glued/spaced split", PARSER_FILE, "%d ordered choices" % n_choices)
+    r.note("%d ordered choices examined; glued first tokens exist in: %s" % (n_choices, ", ".join(sorted(k for k, v in first_glued.items() if v and k in LEXICAL_RULES))[:200]))
